@@ -1,5 +1,6 @@
 import DeepModel.Driver.Proto
 import DeepModel.Model.TriggerBuild
+import DeepModel.Extracted.TpArgs
 open Lean Proto TriggerBuild Extracted.TriggerTable
 
 def staticJ : Option StaticVal → Json
@@ -86,9 +87,49 @@ def decodeArgs (keys : List (String × List (Option String))) (idx : Nat) : Args
       let v := (vs[acc.1 % n]?).getD none
       (acc.1 / n, match v with | some s => acc.2 ++ [(k, s)] | none => acc.2)) (idx, [])).2
 
+def parseArgVal (j : Json) : Except String Extracted.TpArgs.ArgVal :=
+  match j with
+  | .null => pure .none
+  | .str "nan" => pure .floatNan
+  | .str "inf" => pure .floatInf
+  | .str _ => pure .other
+  | _ =>
+    match j.getObjVal? "str", j.getObjVal? "bool", j.getObjVal? "int", j.getObjVal? "float" with
+    | .ok v, _, _, _ => do pure (.str (← v.getStr?))
+    | _, .ok v, _, _ => do pure (.bool (← v.getBool?))
+    | _, _, .ok v, _ => do pure (.int (← v.getInt?))
+    | _, _, _, .ok v => do pure (.floatFinite (← v.getInt?))
+    | _, _, _, _ => throw "unknown argument value"
+
+def intOutJ : Except String Int → Json
+  | .ok i => Json.mkObj [("ok", toJson i)]
+  | .error c => Json.mkObj [("raised", Json.str c)]
+
+def argValJ : Extracted.TpArgs.ArgVal → Json
+  | .str s => Json.mkObj [("str", Json.str s)]
+  | .none => Json.null
+  | .bool b => Json.mkObj [("bool", Json.bool b)]
+  | .int i => Json.mkObj [("int", toJson i)]
+  | .floatFinite t => Json.mkObj [("float", toJson t)]
+  | .floatNan => "nan"
+  | .floatInf => "inf"
+  | .other => "other"
+
 def handle (j : Json) : Except String Json := do
   let op ← getStr j "op"
   match op with
+  | "argint" =>
+    let o ← (← j.getObjVal? "args").getObj?
+    let m ← o.toList.mapM (fun (k, v) => do pure (k, ← parseArgVal v))
+    let name ← getStr j "name"
+    let d ← getInt j "default"
+    pure (Json.mkObj [("get_arg_int", intOutJ (Extracted.TpArgs.get_arg_int m name d)),
+                      ("loc_get_int", intOutJ (Extracted.TpArgs.loc_get_int m name d)),
+                      ("tp_fire_count", intOutJ (Extracted.TpArgs.tp_fire_count m)),
+                      ("loc_fire_count", intOutJ (Extracted.TpArgs.loc_fire_count m)),
+                      ("loc_fire_period", intOutJ (Extracted.TpArgs.loc_fire_period m)),
+                      ("tp_frame_type", argValJ (Extracted.TpArgs.tp_frame_type m)),
+                      ("tp_condition", argValJ (Extracted.TpArgs.tp_condition m))])
   | "build" =>
     let tp ← parseTP j
     pure (Json.mkObj [("trigger", optTriggerJ tp.build)])
